@@ -253,6 +253,65 @@ var c07Mutations = []c07Mutation{
 	}},
 }
 
+// price order: two adjacent transactions of different senders, the first dearer than the second, change places; every
+// commitment that depends on the order (transaction root, receipts with their cumulative gas) is recomputed honestly,
+// so that the only thing wrong with the block is that a dearer transaction follows a cheaper one
+var c07PriceOrder = c07Mutation{"priceorder", func(w *cwWorld, m *types.WorkObject) bool {
+	txs := m.Transactions()
+	if len(txs) < 2 {
+		return false
+	}
+	own := h.NewRng(m.NumberU64(common.ZONE_CTX)*7919 + uint64(len(txs)))
+	signer := types.NewSigner(w.node.sl.Config().ChainID, w.node.loc)
+	var cands []int
+	for j := 0; j+1 < len(txs); j++ {
+		a, b := txs[j], txs[j+1]
+		if a.Type() != types.QuaiTxType || b.Type() != types.QuaiTxType || a.GasPrice().Cmp(b.GasPrice()) <= 0 {
+			continue
+		}
+		fa, e1 := types.Sender(signer, a)
+		fb, e2 := types.Sender(signer, b)
+		if e1 == nil && e2 == nil && !fa.Equal(fb) {
+			cands = append(cands, j)
+		}
+	}
+	if len(cands) == 0 {
+		return false
+	}
+	receipts, _, _, _, _, _, _, _, _, err := w.node.cr.Processor().Process(types.CopyWorkObject(m), w.node.db.NewBatch())
+	if err != nil || len(receipts) != len(txs) {
+		return false
+	}
+	// a pair whose cheaper transaction failed, if there is one
+	var failing []int
+	for _, j := range cands {
+		if receipts[j+1].Status != types.ReceiptStatusSuccessful {
+			failing = append(failing, j)
+		}
+	}
+	pick := cands
+	if len(failing) > 0 && own.Chance(70) {
+		pick = failing
+		w.count("mut:priceorder:cheaper-one-failed")
+	}
+	j := pick[own.Intn(len(pick))]
+	out := append(types.Transactions{}, txs...)
+	out[j], out[j+1] = out[j+1], out[j]
+	rs := make(types.Receipts, len(receipts))
+	for i, r := range receipts {
+		cp := *r
+		rs[i] = &cp
+	}
+	base := receipts[j].CumulativeGasUsed - receipts[j].GasUsed
+	rs[j], rs[j+1] = rs[j+1], rs[j]
+	rs[j].CumulativeGasUsed = base + rs[j].GasUsed
+	rs[j+1].CumulativeGasUsed = rs[j].CumulativeGasUsed + rs[j+1].GasUsed
+	m.Body().SetTransactions(out)
+	m.Header().SetTxHash(txRoot(out))
+	m.Header().SetReceiptHash(types.DeriveSha(rs, trie.NewStackTrie(nil)))
+	return true
+}}
+
 // dbImage: every key/value of the database
 func dbImage(db ethdb.Database) map[string]string {
 	m := map[string]string{}
@@ -358,6 +417,7 @@ func runC07(seed uint64, n int, outDir string, replay string) {
 			}
 			defer safeStop(w.node)
 			w.adversarialQi = c%2 == 0
+			w.priceVar = true
 			for b := 0; b < blocksPerCase; b++ {
 				st, err := w.build()
 				if err != nil {
@@ -369,49 +429,62 @@ func runC07(seed uint64, n int, outDir string, replay string) {
 				num := st.blk.NumberU64(common.ZONE_CTX)
 				c07OwnBlockOracles(o, w, st.blk)
 				// mutants first (the genuine block is appended afterwards on the untouched head)
+				accepted := false
+				tryMut := func(mu c07Mutation) bool {
+					m := types.CopyWorkObject(st.blk)
+					if !mu.apply(w, m) {
+						return false
+					}
+					if w.node.reseal(m, st.order, 0) == nil {
+						return false
+					}
+					before := dbImage(w.node.db)
+					headBefore := w.node.hc.CurrentHeader().Hash()
+					o.Op("mut %s changed=1", mu.kind)
+					err := w.node.appendBlock(m, st.inbound)
+					if err == nil {
+						ans("accept")
+						o.Violate("c07-mutant-accepted:"+mu.kind, fmt.Sprintf("block %d with mutation %s (re-sealed) was appended and became head", num, mu.kind))
+						if strings.Contains(mu.kind, "share") {
+							o.Violate("c13-workshare-included-twice-or-ancestor:"+mu.kind, fmt.Sprintf("block %d carrying a work share that an ancestor already carries (or that is an ancestor) was accepted: the share is rewarded again", num))
+						}
+						accepted = true
+						return true
+					}
+					ans("reject")
+					o.Count("reject:" + mu.kind + ":" + errClass(err))
+					var bad []string
+					for _, cl := range diffImages(before, dbImage(w.node.db)) {
+						if c07NotChainState[cl] {
+							o.Count("left-behind:" + cl)
+						} else {
+							bad = append(bad, cl)
+						}
+					}
+					o.Op("trace")
+					if len(bad) == 0 && w.node.hc.CurrentHeader().Hash() == headBefore {
+						ans("unchanged")
+					} else {
+						ans("changed")
+						o.Violate("c07-rejected-block-left-trace", fmt.Sprintf("block %d mutation %s rejected (%v) but the database changed in %v (head moved: %v)", num, mu.kind, err, bad, w.node.hc.CurrentHeader().Hash() != headBefore))
+					}
+					return true
+				}
 				if rc.Chance(35) {
 					perm := rc.Intn(len(c07Mutations))
 					tried := 0
-					for k := 0; k < len(c07Mutations) && tried < 3; k++ {
-						mu := c07Mutations[(perm+k)%len(c07Mutations)]
-						m := types.CopyWorkObject(st.blk)
-						if !mu.apply(w, m) {
-							continue
-						}
-						if w.node.reseal(m, st.order, 0) == nil {
-							continue
-						}
-						tried++
-						before := dbImage(w.node.db)
-						headBefore := w.node.hc.CurrentHeader().Hash()
-						o.Op("mut %s changed=1", mu.kind)
-						err := w.node.appendBlock(m, st.inbound)
-						if err == nil {
-							ans("accept")
-							o.Violate("c07-mutant-accepted:"+mu.kind, fmt.Sprintf("block %d with mutation %s (re-sealed) was appended and became head", num, mu.kind))
-							if strings.Contains(mu.kind, "share") {
-								o.Violate("c13-workshare-included-twice-or-ancestor:"+mu.kind, fmt.Sprintf("block %d carrying a work share that an ancestor already carries (or that is an ancestor) was accepted: the share is rewarded again", num))
-							}
-							return
-						}
-						ans("reject")
-						o.Count("reject:" + mu.kind + ":" + errClass(err))
-						var bad []string
-						for _, cl := range diffImages(before, dbImage(w.node.db)) {
-							if c07NotChainState[cl] {
-								o.Count("left-behind:" + cl)
-							} else {
-								bad = append(bad, cl)
-							}
-						}
-						o.Op("trace")
-						if len(bad) == 0 && w.node.hc.CurrentHeader().Hash() == headBefore {
-							ans("unchanged")
-						} else {
-							ans("changed")
-							o.Violate("c07-rejected-block-left-trace", fmt.Sprintf("block %d mutation %s rejected (%v) but the database changed in %v (head moved: %v)", num, mu.kind, err, bad, w.node.hc.CurrentHeader().Hash() != headBefore))
+					for k := 0; k < len(c07Mutations) && tried < 3 && !accepted; k++ {
+						if tryMut(c07Mutations[(perm+k)%len(c07Mutations)]) {
+							tried++
 						}
 					}
+				}
+				// whenever the block lists a dearer transaction before a cheaper one of another sender: the two exchanged
+				if !accepted {
+					tryMut(c07PriceOrder)
+				}
+				if accepted {
+					return
 				}
 				// a neutral variant (another nonce sealing the same content) is as good as the original
 				if rc.Chance(15) {
